@@ -43,6 +43,25 @@ def _mk_method(name, slot):
     return meth
 
 
+_CLS_VALUES = {}      # (class-level) values of classmethod / staticmethod guards, keyed by slot
+
+
+def _mk_classmethod(name, slot):
+    def meth(cls):
+        LOG.append(slot)
+        return _CLS_VALUES.get(slot)
+    meth.__name__ = name
+    return classmethod(meth)
+
+
+def _mk_staticmethod(name, slot):
+    def meth():
+        LOG.append(slot)
+        return _CLS_VALUES.get(slot)
+    meth.__name__ = name
+    return staticmethod(meth)
+
+
 def _mk_coro(name, slot):
     async def meth(self):
         LOG.append(slot)
@@ -95,7 +114,8 @@ def build_machine(scn, lay):
             def f(_box=box, _sid=sid):
                 LOG.append(_sid)
                 return _box["v"]
-            f.__name__ = n
+            # distinct callables may share a __name__ (lambdas, closures of one factory)
+            f.__name__ = "check" if scn.get("same_free_names") else n
             free[n] = f
             values[sid] = ("box", box, None)
             continue
@@ -104,9 +124,10 @@ def build_machine(scn, lay):
             target[n] = None
             values[sid] = ("attr", p, n)
         else:
-            mk = {"prop": _mk_prop, "method": _mk_method, "coro": _mk_coro}[kind]
+            mk = {"prop": _mk_prop, "method": _mk_method, "coro": _mk_coro, "classmethod": _mk_classmethod,
+                  "staticmethod": _mk_staticmethod}[kind]
             target[n] = mk(n, sid)
-            values[sid] = ("v", p, n)
+            values[sid] = ("cls", sid, n) if kind in ("classmethod", "staticmethod") else ("v", p, n)
     objs = {}
     for p, attrs in holders.items():
         cls = type("P_" + p, (Prov,), {k: v for k, v in attrs.items() if v is not None})
@@ -156,6 +177,8 @@ def set_values(lay, objs, values, rho):
         how = values[sid]
         if how[0] == "box":
             how[1]["v"] = v
+        elif how[0] == "cls":
+            _CLS_VALUES[sid] = v
         elif how[0] == "attr":
             if p == "machine":
                 setattr(objs[p], n, v)
